@@ -368,7 +368,7 @@ theorem inv_enter {F : List Kind} {g g1 : G} {k k1 : Kind} {a : List Nat} {n : N
   have archCase : (let e := a.headD 0
       if g.s .conv = [] then (.error .noConv : Except Err (G × List Tok × Kind))
       else if g.inst.contains e then .ok (push .archReuse [e] g, [[3, e]], .archReuse)
-      else .ok ({ push .arch [0, n, e] g with inst := e :: g.inst }, [], .arch)) = .ok (g1, t, k1) → Inv (k1 :: F) g1 := by
+      else .ok ({ push .arch [0, n, e] g with inst := e :: g.inst, dyn := g.dyn.filter (fun q => q.1 != e) }, [], .arch)) = .ok (g1, t, k1) → Inv (k1 :: F) g1 := by
     intro e
     simp only at e
     split at e
@@ -380,7 +380,8 @@ theorem inv_enter {F : List Kind} {g g1 : G} {k k1 : Kind} {a : List Nat} {n : N
         exact inv_push _ _ (by decide) (by decide) (by decide) h
       · simp only [Except.ok.injEq, Prod.mk.injEq] at e
         obtain ⟨rfl, _, rfl⟩ := e
-        exact inv_enter_arch _ _ hc h
+        exact inv_congr (g := { push .arch [0, n, a.headD 0] g with inst := a.headD 0 :: g.inst }) rfl rfl rfl
+          (inv_enter_arch _ _ hc h)
   cases k with
   | conv =>
     simp only [enter] at he
@@ -429,6 +430,12 @@ theorem act_frame {cfg : Cfg} {perm : List Nat → List Nat} {a : Act} {g g1 : G
   case useCtx =>
     split at h
     · simp only [Except.ok.injEq, Prod.mk.injEq] at h; obtain ⟨rfl, _⟩ := h; simp
+    · simp at h
+  case addPort p =>
+    split at h
+    · split at h
+      · simp at h
+      · simp only [Except.ok.injEq, Prod.mk.injEq] at h; obtain ⟨rfl, _⟩ := h; simp
     · simp at h
   all_goals (simp only [Except.ok.injEq, Prod.mk.injEq] at h; obtain ⟨rfl, _⟩ := h; simp)
 
